@@ -513,12 +513,12 @@ def shards(tier, seed):
     if tier == "quick":
         nc = len(POOLS["quick"])
         for i, sk in enumerate(SKELETONS):
-            out.append(dict(name=f"sk{i:02d}", fn="h_rt", engine="direct", budget=240, query_timeout=60,
+            out.append(dict(name=f"sk{i:02d}", fn="h_rt", engine="direct", budget=600, query_timeout=60,
                             kwargs=dict(sk=sk, k=2, pool="quick", rows=_rows(ns, ni, nc, 24))))
         for i in (0, 3):  # the raw pool (negative numbers, 3/10) for the ai-planning reader
             out.append(dict(name=f"sk{i:02d}-airaw", fn="h_rt", engine="direct", budget=120, query_timeout=60,
                             kwargs=dict(sk=dict(SKELETONS[i], ai_raw=True), k=2, pool="quick", rows=_rows(ns, ni, nc, 14), readers=["ai"])))
-        out.append(dict(name="temporal", fn="h_temporal", engine="direct", budget=240, query_timeout=60,
+        out.append(dict(name="temporal", fn="h_temporal", engine="direct", budget=600, query_timeout=60,
                         kwargs=dict(k=2, pool="quick", schemes=["plain", "upper", "pkw_t", "lsym"],
                                     rows=[[i % 4, (2 * i + i // 4) % nc] for i in range(8)])))
         out.append(dict(name="env-readers", fn="h_env", engine="direct", budget=60, kwargs=dict(sk=SKELETONS[7])))
